@@ -227,3 +227,27 @@ def first_exotic_lf_line(t: str):
         if has_exotic(l + "\n"):
             return i
     return None
+
+
+def fold_lazy_lf(diffs, text, appliers=(apply_udiff,)):
+    """fold in which a diff that does not apply to the current text may instead apply to its "\r\n" -> "\n"
+    normalisation, which then stays (a text-mode writer reads with universal newlines and writes "\n" everywhere;
+    the pipelines' own diffs, computed from the bytes, apply as they are).  Returns (text, normalised at least once)."""
+    cur, normalised = text, False
+    for d in diffs:
+        nxt = None
+        for ap in appliers:
+            nxt = ap(d, cur)
+            if nxt is not None:
+                break
+        if nxt is None and "\r\n" in cur:
+            lf = cur.replace("\r\n", "\n")
+            for ap in appliers:
+                nxt = ap(d, lf)
+                if nxt is not None:
+                    normalised = True
+                    break
+        if nxt is None:
+            return None, normalised
+        cur = nxt
+    return cur, normalised
